@@ -71,6 +71,7 @@ structure Oracle where
   roots : Nat × Nat := (0, 0)
   eciFull : Nat × Nat := (0, 0)
   eciEmpty : Nat × Nat := (0, 0)
+  upgrade : Option (Nat × Nat) := none
   np : Nat := 0
 
 def attempts (ids : List Nat) (letters : List Char) : List (Nat × Nat × Char) :=
@@ -103,6 +104,7 @@ def mkPrims (o : Oracle) : Prims DS :=
       -- the model executes a transaction the implementation did not execute: make it visible
       | none => .ok { s with n := s.n + 1, log := s.log ++ "?" }
     roots := fun _ _ => o.roots
+    upgradeItem := fun _ _ => o.upgrade
     eciFull := fun _ _ => o.eciFull
     eciEmpty := o.eciEmpty
     post := fun s _ _ => if o.postFails then .error .post else .ok ({ s with log := s.log ++ "O" }, 0)
@@ -178,12 +180,13 @@ def Sess.parseItem (s : Sess) (w : String) : Item :=
     | "R1", [b] => .root1 (natOf b)
     | "R2", [b] => .root2 (natOf b)
     | "E", [b, l, wf] => .eci (natOf b) (natOf l) (wf = "1")
+    | "U", [b, l] => .upgrade (natOf b) (natOf l)
     | "G", [b, l] => .garbage (natOf b) (natOf l)
     | _, _ => .garbage 0 0
   | _ => .tx (s.txOf (idOf w))
 
 def itemShape : Item → String
-  | .root1 _ => "R1" | .root2 _ => "R2" | .upgrade _ => "U" | .eci _ l _ => s!"E:{l}"
+  | .root1 _ => "R1" | .root2 _ => "R2" | .upgrade _ l => s!"U:{l}" | .eci _ l _ => s!"E:{l}"
   | .tx t => s!"T{t.id}" | .garbage _ l => s!"G:{l}"
 
 /-- register the block described by a `h=.. t=.. … items=..` section -/
@@ -246,7 +249,7 @@ def blockTags (s : Sess) (bi : BlkInfo) : String :=
 def monitoredMutations : List String :=
   ["mutate:root1", "mutate:root2", "mutate:swaproots", "mutate:drop0", "mutate:drop1", "mutate:dropE",
    "mutate:Elast", "mutate:Efirst", "mutate:garbage", "mutate:unsigned", "mutate:regroup",
-   "mutate:fatal", "mutate:overseq"]
+   "mutate:fatal", "mutate:overseq", "mutate:dropU"]
 
 /-! ### the replay -/
 
@@ -323,10 +326,17 @@ def run (lines : Array String) : Driver.Report := Id.run do
       let ditems := (commaList (kv dws "items")).map st.parseItem
       let r1 := match ditems with | .root1 b :: _ => b | _ => 0
       let r2 := match ditems with | _ :: .root2 b :: _ => b | _ => 0
-      let eb := match ditems with | _ :: _ :: .eci b _ _ :: _ => b | _ => 0
+      let eb := (ditems.findSome? fun it => match it with | .eci b _ _ => some b | _ => none).getD 0
+      let upg := ditems.findSome? fun it => match it with | .upgrade b l => some (b, l) | _ => none
+      -- a failed prepare has no block description: the upgrade item (if any) is reported as `up=`
+      let upg := match upg with
+        | some u => some u
+        | none => match (kv iws "up").splitOn ":" with
+          | [b, l] => some (natOf b, natOf l)
+          | _ => none
       let o : Oracle :=
         { outcomes := attempts (qents.map (·.id)) letters, roots := (r1, r2),
-          eciFull := (eb, fullLen), eciEmpty := (eb, emptyLen) }
+          eciFull := (eb, fullLen), eciEmpty := (eb, emptyLen), upgrade := upg }
       let maxS := kv ows "max"
       let req : PrepReq :=
         { height := natOf (kv ows "h"), time := natOf (kv ows "t"), proposer := natOf (kv ows "p"),
@@ -334,7 +344,7 @@ def run (lines : Array String) : Driver.Report := Id.run do
           maxTxBytes := maxS.toInt?.getD 0, queue := qents }
       let (a', resp) := step (mkPrims o) a (.prepare req)
       st := { st with insts := st.insts.setIfInBounds i a' }
-      let echo := s!"q={qs} o={kv iws "o"} inj={kv iws "inj"}"
+      let echo := s!"q={qs} o={kv iws "o"} inj={kv iws "inj"} up={kv iws "up"}"
       match resp with
       | .prepared items =>
         if verdict = "ok" then st := st.addBlock bid desc
@@ -359,8 +369,8 @@ def run (lines : Array String) : Driver.Report := Id.run do
         let sbI := natOf (kv mws "sb")
         let maxN := natOf maxS
         let incTx := incIds.map fun id => (qents.find? (·.id = id)).getD { id := id, len := 0, seq := 0, group := 4 }
-        let eciLen := match ditems with | _ :: _ :: .eci _ l _ :: _ => l | _ => 0
-        let sumLen := 68 + eciLen + (incTx.map (·.len)).sum
+        let injLen := (ditems.map fun it => match it with | .eci _ l _ => l | .upgrade _ l => l | _ => 0).sum
+        let sumLen := 68 + injLen + (incTx.map (·.len)).sum
         let sumSeq := (incTx.map (·.seq)).sum
         let groupsOk := (incTx.map (·.group)).zip ((incTx.map (·.group)).drop 1) |>.all fun (g1, g2) => g2 ≤ g1
         let letterOf := fun (id : Nat) =>
@@ -394,7 +404,8 @@ def run (lines : Array String) : Driver.Report := Id.run do
         let cs := (kv iws "cs").toList
         let xo := (kv iws "xo").toList
         let o : Oracle :=
-          { veValid := kind ≠ "ve", preFails := if kind = "pre" then some .pre else none,
+          { veValid := kind ≠ "ve",
+            preFails := if kind = "pre" then some .pre else if kind = "upgrade" then some .upgrade else none,
             postFails := kind = "post",
             cs := posIds.zip (cs.map (· = '1')),
             outcomes := attempts posIds xo, roots := bi.er, np := bi.np }
@@ -408,7 +419,8 @@ def run (lines : Array String) : Driver.Report := Id.run do
           | .reject e => s!"reject:{e.name}"
           | _ => "bad-response"
         -- the post_execute span exists even when the phase fails: a failed post still shows `O`
-        let plog := if kind = "post" then a'.work.log ++ "O" else a'.work.log
+        let plog := if kind = "post" then a'.work.log ++ "O"
+          else if kind = "pre" ∨ kind = "upgrade" then a'.work.log ++ "P" else a'.work.log
         r := r.check n line impl s!"{v} cs={kv iws "cs"} xo={kv iws "xo"} | exec={st.execStr a'.exec} rs={rs} ph={phStr plog}"
         r := r.bump s!"process_{verdict}"
         r := r.bump s!"process_from_{execKind a.exec}"
@@ -439,7 +451,8 @@ def run (lines : Array String) : Driver.Report := Id.run do
           let cs := (kv iws "cs").toList
           let xo := (kv iws "xo").toList
           let o : Oracle :=
-            { preFails := if kind = "pre" then some .pre else none, postFails := kind = "post",
+            { preFails := if kind = "pre" then some .pre else if kind = "upgrade" then some .upgrade else none,
+              postFails := kind = "post",
               pricesFail := kind = "prices",
               cs := posIds.zip (cs.map (· = '1')),
               outcomes := attempts posIds xo, roots := bi.er, np := bi.np }
@@ -451,7 +464,8 @@ def run (lines : Array String) : Driver.Report := Id.run do
           let staged := match a'.writeBatch with | some w => w.log | none => a'.work.log
           -- the price span is created before the failing put: a failed price phase still shows `$`
           let staged := if kind = "prices" ∧ bi.np > 0 then staged ++ "$" else staged
-          let staged := if kind = "post" then staged ++ "O" else staged
+          let staged := if kind = "post" then staged ++ "O"
+            else if kind = "pre" ∨ kind = "upgrade" then staged ++ "P" else staged
           let tail := s!"cs={kv iws "cs"} xo={kv iws "xo"} | exec={st.execStr a'.exec} ph="
           match resp with
           | .finalized fr =>
